@@ -135,7 +135,7 @@ PROPS = {
     },
     "C11": {
         "modules": ["PgBifrost.Props.C11"],
-        "components": ["kinesis"],
+        "components": ["kinesis", "plumbing"],
         "required_theorems": ["PgBifrost.Props.C11.kinesis_written_all_accepted", "PgBifrost.Props.C11.kinesis_retry_exact",
                               "PgBifrost.Props.C11.kinesis_no_report_on_giveup", "PgBifrost.Props.C11.compact_eq_filter",
                               "PgBifrost.Props.C11.kinesis_attempt_as_in_source", "PgBifrost.Props.C11.kinesis_iteration_as_in_source"],
